@@ -72,10 +72,19 @@ class StaticCondensation(Module):
         return A[self.m, ...][..., self.m] - A[self.m, ...][..., self.f] @ self.X
 
     def _sensitivity(self, dfdB):
-        C = np.zeros((self.n, len(self.m)), dtype=float)
-        C[self.m, ...] = np.eye(len(self.m))
-        C[self.f, ...] = -self.X
-        return C @ dfdB @ C.T if isinstance(dfdB, DyadCarrier) else DyadCarrier(list(C.T), list(np.asarray(dfdB @ C.T)))
+        # Ared = [I, -Y] A [I; -X] with X = Aff^-1 Afm and Y = Amf Aff^-1 (Y^T = X only for symmetric A)
+        A = self.sig_in[0].state
+        Amf = A[self.m, ...][..., self.f]
+        AmfT = Amf.toarray().T if hasattr(Amf, 'toarray') else np.asarray(Amf).T
+        YT = self.module_LinSolve.solver.solve(AmfT, trans='T')
+        dtype = np.result_type(self.X, YT)
+        Cl = np.zeros((self.n, len(self.m)), dtype=dtype)
+        Cl[self.m, ...] = np.eye(len(self.m))
+        Cl[self.f, ...] = -YT
+        Cr = np.zeros((self.n, len(self.m)), dtype=dtype)
+        Cr[self.m, ...] = np.eye(len(self.m))
+        Cr[self.f, ...] = -self.X
+        return Cl @ dfdB @ Cr.T if isinstance(dfdB, DyadCarrier) else DyadCarrier(list(Cl.T), list(np.asarray(dfdB @ Cr.T)))
 
 
 class SystemOfEquations(Module):
